@@ -206,6 +206,22 @@ func (s *Solver) Check(conj []*Term) SatResult {
 		s.send("(check-sat-assuming (" + strings.Join(names, " ") + "))")
 	}
 	var res SatResult
+	// watchdog: the solver's own soft timeout does not fire inside some preprocessing steps
+	proc := s.cmd.Process
+	killed := false
+	wd := time.AfterFunc(time.Duration(s.TimeoutS+30)*time.Second, func() {
+		killed = true
+		proc.Kill()
+	})
+	defer wd.Stop()
+	defer func() {
+		if r := recover(); r != nil {
+			if killed {
+				panic(engineErr("solver %s exceeded the hard time limit of %d s on one query (killed); result inconclusive", s.Name, s.TimeoutS+30))
+			}
+			panic(r)
+		}
+	}()
 	for {
 		l := s.readLine()
 		if l == "" {
